@@ -753,7 +753,7 @@ static void run_cmd(int ntok, char **tok) {
         } else {
             ev_begin("gdiff"); ev_raw(",\"changed\":["); int first = 1;
             for(int i = 0; i < gn; i++) if(memcmp(gcopy[i], gaddr[i], gsize[i])) { char tmp[96]; snprintf(tmp, sizeof tmp, "%s\"%s\"", first ? "" : ",", gname[i]); ev_raw(tmp); first = 0; memcpy(gcopy[i], gaddr[i], gsize[i]); }
-            ev_raw("]"); ev_int("static_bufs", shim_static_bufs); ev_int("foreign_closes", shim_foreign_closes); ev_end();
+            ev_raw("]"); ev_int("static_bufs", shim_static_bufs); ev_int("foreign_closes", shim_foreign_closes); ev_int("umask_calls", shim_umask_calls); ev_int("mkstemp_calls", shim_mkstemp_calls); ev_int("umask_in_mkstemp", shim_umask_in_mkstemp); ev_end();
         }
     }
     else if(!strcmp(op, "echo")) { ev_begin("echo"); ev_str("s", A(1)); ev_end(); }
